@@ -56,6 +56,10 @@ FAMILIES = {
     "quote-run": lambda n: "a " + '"' * n + " b\n", "apos-run": lambda n: "a " + "'" * n + " b\n", "underscores": lambda n: "_" * n,
     "tildes": lambda n: "a " + "~" * n + " b", "tilde-pairs": lambda n: "~~a " * n, "colons": lambda n: ":" * n, "at-run": lambda n: "a" + "@" * n + "b",
     "percent-run": lambda n: "{" + "%" * n + "}", "brace-run": lambda n: "{" * n, "digits": lambda n: "1" * n + ". a", "combining": lambda n: "a" + "\u0301" * n,
+    # a number of thousands of digits where a list marker could stand, next to tag lines (whatever looks at the marker must
+    # not convert it: int() refuses more than 4300 digits)
+    "digits-after-tag-line": lambda n: "{% t %}\n" + "1" * n + ". a\nmore\n{% /t %}\n", "digits-paren-in-tag-paragraph": lambda n: "text {% t %}\n" + "9" * n + ") a\nmore text\n",
+    "digits-before-comment-line": lambda n: "- x\n" + "7" * n + ". y\n<!-- c -->\n", "digit-items": lambda n: "".join(str(10 ** 8 + i) + "0" * (n // 64) + ". a\n" for i in range(8)),
     # unclosed openers and unmatched closers of every construct
     "bang-brackets": lambda n: "![" * n, "close-brackets": lambda n: "]" * n, "parens": lambda n: "(" * n, "link-open-paren": lambda n: "[a](" * n,
     "lt-run": lambda n: "<" * n, "lt-slash": lambda n: "</a " * n, "autolink-open": lambda n: "<http://a " * n, "close-tags": lambda n: "%} " * n,
